@@ -383,7 +383,7 @@ pub fn automaton<G: Tables, const N: usize, const STEPS: usize>(toks: &[u8; N], 
 /// string is a sentence (independent Earley reference), rejects at the first offending
 /// token, and every accepted run is a valid bottom-up derivation.
 #[cfg(kani)]
-pub fn run<G: Tables, const N: usize, const STEPS: usize>() {
+pub fn run<G: Tables, const N: usize, const STEPS: usize>() -> (bool, usize, usize) {
     let (toks, n) = any_toks::<G, N>();
     let out = automaton::<G, N, STEPS>(&toks, n);
     let (member, first_err) = G::reference(ref_index::<G, N>(&toks, n));
@@ -398,7 +398,5 @@ pub fn run<G: Tables, const N: usize, const STEPS: usize>() {
         }
         Outcome::Broken => assert!(false, "C02 the table drives the automaton into an inconsistent step"),
     }
-    kani::cover!(member && n >= 3, "a sentence of length >= 3");
-    kani::cover!(!member && n >= 2 && (first_err as usize) == n, "incomplete input: error at the end");
-    kani::cover!(!member && n >= 3 && (first_err as usize) + 1 < n, "error inside the input");
+    (member, n, first_err as usize)
 }
